@@ -1,3 +1,4 @@
+import DvidModel.Gen.NJ
 /-
   neuronjson field-merge rules: datatype/neuronjson/neuronjson.go `updateJSON`, and the in-memory head's
   bookkeeping (`storeAndUpdate`, `DeleteData`, memstore.go `addBodyID` / `deleteBodyID`).
@@ -13,77 +14,104 @@ inductive Val where
   | other (json : String)
   deriving DecidableEq, Repr
 
-abbrev Obj := List (String × Val)
+/-- a field name is read the way the Go code reads it: `<root>_user` and `<root>_time` are the stamps of `<root>`
+    (one suffix level: `strings.HasSuffix`, `field[:len(field)-5]`), anything else is a plain field -/
+inductive Kind where
+  | plain | user | time
+  deriving DecidableEq, Repr
 
-def get (o : Obj) (k : String) : Option Val := (o.find? (·.1 == k)).map (·.2)
-def has (o : Obj) (k : String) : Bool := o.any (·.1 == k)
-def erase (o : Obj) (k : String) : Obj := o.filter (·.1 != k)
-def set (o : Obj) (k : String) (v : Val) : Obj :=
+structure Key where
+  root : String
+  kind : Kind
+  deriving DecidableEq, Repr
+
+abbrev Obj := List (Key × Val)
+
+def get (o : Obj) (k : Key) : Option Val := (o.find? (·.1 == k)).map (·.2)
+def has (o : Obj) (k : Key) : Bool := o.any (·.1 == k)
+def erase (o : Obj) (k : Key) : Obj := o.filter (·.1 != k)
+def set (o : Obj) (k : Key) (v : Val) : Obj :=
   if has o k then o.map (fun p => if p.1 == k then (k, v) else p) else o ++ [(k, v)]
-def keys (o : Obj) : List String := o.map (·.1)
+def keys (o : Obj) : List Key := o.map (·.1)
 
-def isMeta (f : String) : Bool := f.endsWith "_user" || f.endsWith "_time"
-def rootOf (f : String) : String := String.ofList (f.toList.take (f.length - 5))
+def isMeta (f : Key) : Bool := f.kind != .plain
+def userOf (f : Key) : Key := ⟨f.root, .user⟩
+def timeOf (f : Key) : Key := ⟨f.root, .time⟩
+def plainOf (f : Key) : Key := ⟨f.root, .plain⟩
+def bodyidKey : Key := ⟨"bodyid", .plain⟩
+def userKey : Key := ⟨"user", .plain⟩
 
-/-- the explicitly given `<field>_user` (or `_time`) strings of a request: root field -> JSON text ("" text when not a string) -/
-def explicitStamps (new : Obj) (suffix : String) : List (String × String) :=
+/-- the explicitly given `<field>_user` (or `_time`) strings of a request: root -> JSON text ("" text when not a string) -/
+def explicitStamps (new : Obj) (kind : Kind) : List (String × String) :=
   new.filterMap fun p =>
-    if p.1.endsWith suffix then
-      some (rootOf p.1, match p.2 with | .str s => s | _ => "\"\"")
+    if p.1.kind == kind then
+      some (p.1.root, match p.2 with | .str s => s | _ => "\"\"")
     else none
 
 def lookupS (l : List (String × String)) (k : String) : Option String := (l.find? (·.1 == k)).map (·.2)
 
 /-- the null loop: a null removes the field from request and original, and records who/when removed it -/
-def dropNull (fu ft : List (String × String)) (user time : String) (st : Obj × Option Obj) (f : String) : Obj × Option Obj :=
+def dropNull (fu ft : List (String × String)) (user time : String) (st : Obj × Option Obj) (f : Key) : Obj × Option Obj :=
   let nw := erase st.1 f
   let nw :=
     if !isMeta f then
-      let setUser := (lookupS fu f).getD user
-      let setTime := (lookupS ft f).getD time
-      let nw := if setUser != "\"\"" then set nw (f ++ "_user") (.str setUser) else nw
-      if setTime != "\"\"" then set nw (f ++ "_time") (.str setTime) else nw
+      let setUser := (lookupS fu f.root).getD user
+      let setTime := (lookupS ft f.root).getD time
+      let nw := if setUser != "\"\"" then set nw (userOf f) (.str setUser) else nw
+      if setTime != "\"\"" then set nw (timeOf f) (.str setTime) else nw
     else nw
   (nw, st.2.map (erase · f))
 
 /-- carry forward (non-replace): fields of the original the request does not mention, or that are protected -/
-def carry (cond : List String) (st : Obj × List String) (p : String × Val) : Obj × List String :=
+def carry (cond : List Key) (st : Obj × List Key) (p : Key × Val) : Obj × List Key :=
   if !has st.1 p.1 then (set st.1 p.1 p.2, st.2)
   else if cond.contains p.1 then (set st.1 p.1 p.2, st.2.filter (· != p.1))
   else st
 
-def stamp (user time : String) (deleted newlySet : List String) (nw : Obj) (f : String) : Obj :=
-  if f == "bodyid" || f == "user" then nw
+def stamp (user time : String) (deleted newlySet : List Key) (nw : Obj) (f : Key) : Obj :=
+  if f == bodyidKey || f == userKey then nw
   else if deleted.contains f then nw
   else if isMeta f then nw
   else
-    let nw := if !newlySet.contains (f ++ "_user") && user != "\"\"" then set nw (f ++ "_user") (.str user) else nw
-    if !newlySet.contains (f ++ "_time") then set nw (f ++ "_time") (.str time) else nw
+    let nw := if !newlySet.contains (userOf f) && user != "\"\"" then set nw (userOf f) (.str user) else nw
+    if !newlySet.contains (timeOf f) then set nw (timeOf f) (.str time) else nw
 
-def keepStamps (user time : String) (deleted : List String) (og : Obj) (nw : Obj) (f : String) : Obj :=
-  if f == "bodyid" then nw
+def keepStamps (user time : String) (deleted : List Key) (og : Obj) (nw : Obj) (f : Key) : Obj :=
+  if f == bodyidKey then nw
   else if deleted.contains f then nw
   else
-    let nw := if !has nw (f ++ "_user") then set nw (f ++ "_user") ((get og (f ++ "_user")).getD (.str user)) else nw
-    if !has nw (f ++ "_time") then set nw (f ++ "_time") ((get og (f ++ "_time")).getD (.str time)) else nw
+    let nw := if !has nw (userOf f) then set nw (userOf f) ((get og (userOf f)).getD (.str user)) else nw
+    if !has nw (timeOf f) then set nw (timeOf f) ((get og (timeOf f)).getD (.str time)) else nw
 
 /-- `updateJSON(origData, newData, user, conditionals, replace)`; `user` and `time` are JSON texts of strings -/
-def updateJSON (orig : Option Obj) (new : Obj) (user time : String) (cond : List String) (replace : Bool) : Obj :=
-  let fu := explicitStamps new "_user"
-  let ft := explicitStamps new "_time"
+def updateJSON (orig : Option Obj) (new : Obj) (user time : String) (cond : List Key) (replace : Bool) : Obj :=
+  let fu := explicitStamps new .user
+  let ft := explicitStamps new .time
   let deleted := (new.filter (·.2 == .null)).map (·.1)
   let st := deleted.foldl (dropNull fu ft user time) (new, orig)
   let nw := st.1
   match st.2 with
   | none =>
-    let newlySet := keys nw ++ (keys nw).filterMap fun f => if f.endsWith "_user" then some (rootOf f) else none
+    let newlySet := keys nw ++ (keys nw).filterMap fun f => if f.kind == .user then some (plainOf f) else none
     newlySet.foldl (stamp user time deleted newlySet) nw
   | some og =>
     let newlySet := (keys nw).filter fun f => !has og f || isMeta f || get nw f != get og f
     let newFields := (keys nw).filter fun f => !isMeta f
-    let (nw, newlySet) := if replace then (nw, newlySet) else og.foldl (carry cond) (nw, newlySet)
-    let nw := newlySet.foldl (stamp user time deleted newlySet) nw
+    let r := if replace then (nw, newlySet) else og.foldl (carry cond) (nw, newlySet)
+    let nw := r.2.foldl (stamp user time deleted r.2) r.1
     if replace then newFields.foldl (keepStamps user time deleted og) nw else nw
+
+/-- field name <-> key, as the Go code reads names -/
+def keyOfName (f : String) : Key :=
+  if f.endsWith "_user" then ⟨String.ofList (f.toList.take (f.length - 5)), .user⟩
+  else if f.endsWith "_time" then ⟨String.ofList (f.toList.take (f.length - 5)), .time⟩
+  else ⟨f, .plain⟩
+
+def nameOfKey (k : Key) : String :=
+  match k.kind with
+  | .plain => k.root
+  | .user => k.root ++ "_user"
+  | .time => k.root ++ "_time"
 
 /-! ### the in-memory head: sorted id list with Go's `sort.Search` -/
 
@@ -101,5 +129,14 @@ def search (n : Nat) (f : Nat → Bool) : Nat := searchLoop f (n + 1) 0 n
 def addBodyID (ids : List Nat) (b : Nat) : List Nat :=
   let i := search ids.length fun i => decide (ids.getD i 0 ≥ b)
   if i < ids.length && ids.getD i 0 == b then ids else ids.take i ++ [b] ++ ids.drop i
+
+/-- `deleteBodyID`: the predicate handed to `sort.Search` is regenerated from the source -/
+def deleteBodyID (ids : List Nat) (b : Nat) : List Nat :=
+  if Gen.njDeleteSearchMonotone then
+    let i := search ids.length fun i => decide (ids.getD i 0 ≥ b)
+    if i == ids.length || ids.getD i 0 != b then ids else ids.eraseIdx i
+  else
+    let i := search ids.length fun i => ids.getD i 0 == b
+    if i == ids.length then ids else ids.eraseIdx i
 
 end Dvid.NJ
